@@ -249,6 +249,35 @@ func macroGraphs(c *fw.Ctx, emit emitFn) {
 		n++
 		emit("macro-special", singleJob(fmt.Sprintf("ms-%d", n), []byte(d), false))
 	}
+	// chains of macros each of which pastes the next one k times: the expansion is k^depth copies of the innermost body, from a text
+	// of a few hundred bytes; used from the root, from a method, and not used at all
+	for _, fan := range []int{2, 3} {
+		for _, depth := range []int{4, 8, 12, 16, 20, 24, 28, 32, 40} {
+			for _, use := range []string{"root", "method", "unused"} {
+				var sb strings.Builder
+				sb.WriteString("JSIGHT 0.3\n")
+				if use == "method" {
+					sb.WriteString("GET /a\n  PASTE @m0\n")
+				}
+				for i := 0; i < depth; i++ {
+					sb.WriteString(fmt.Sprintf("MACRO @m%d\n(\n", i))
+					if i == depth-1 {
+						sb.WriteString("  200 any\n")
+					} else {
+						for q := 0; q < fan; q++ {
+							sb.WriteString(fmt.Sprintf("  PASTE @m%d\n", i+1))
+						}
+					}
+					sb.WriteString(")\n")
+				}
+				if use == "root" {
+					sb.WriteString("GET /b\n  PASTE @m0\n")
+				}
+				n++
+				emit("macro-fanout", singleJob(fmt.Sprintf("mf-%d-%d-%s", fan, depth, use), []byte(sb.String()), false))
+			}
+		}
+	}
 	_ = c
 }
 
